@@ -113,6 +113,7 @@ func init() {
 			{"dead-update", "no struct-typed local is assigned and field-updated without ever being read, passed on or returned (a modified copy that is lost while the stale original goes on being used)", func(c *Ctx) { ruleDeadUpdate(c, "pkg/core/statesync", "pkg/network/bqueue") }},
 			{"check-all-loop", "a loop that rejects on a property of each element with an error return is not left early with a break (the elements after it would escape the check)", func(c *Ctx) { ruleCheckAllLoop(c, "pkg/core/statesync", "pkg/network/bqueue") }},
 			{"multimap-merge", "a multimap (map with slice values) that outlives the merge is merged into by appending to the list stored under a key, never by maps.Copy or a plain keyed store (only the last contribution for a key would survive)", func(c *Ctx) { ruleMultimapMerge(c, "pkg/core/statesync", "pkg/network/bqueue", "pkg/core/mpt") }},
+			{"record-kind", "every function that decodes a trie node record (from the store, from a proof, from a peer) refuses the child-only kinds - hash node and empty node - before it uses the node: an empty record panics, a hash-node record makes the loaded node point at itself", func(c *Ctx) { ruleRecordKind(c, "pkg/core/statesync", "pkg/core/mpt") }},
 			{"lock-pairing", "in pkg/network/bqueue and pkg/core/statesync every mutex acquired is released on every exit (defer-aware, boolean-correlated; the hand-unlocked Blocking branch of Queue.Put included)", func(c *Ctx) { lockPairingPkgs(c, []string{"pkg/network/bqueue", "pkg/core/statesync"}, nil, 10) }},
 			{"lockset", "the block queue's ring/len/lastQ and the state-sync module's stage, sync point, heights, tries and node pool are read and written only while the owning mutex is held (write lock for writes), in methods every call site of which holds it, or in the tabled traversal callback", ruleLocksetSync},
 			{"stage-machine", "the state jump that ends a state synchronisation is a well-formed stage machine: markers name the next clause and are persisted with the stage, and everything the jump writes to the store is in or before the batch that removes the marker (a restart at any point resumes or finds the jump complete)", ruleStageMachine},
@@ -283,6 +284,7 @@ func init() {
 			{"dead-update", "no struct-typed local is assigned and field-updated without ever being read, passed on or returned (a modified copy that is lost while the stale original goes on being used)", func(c *Ctx) { ruleDeadUpdate(c, "pkg/core/mpt") }},
 			{"check-all-loop", "a loop that rejects on a property of each element with an error return is not left early with a break (the elements after it would escape the check)", func(c *Ctx) { ruleCheckAllLoop(c, "pkg/core/mpt") }},
 			{"copy-complete", "Clone of every trie node kind starts from the whole node or names every field (a restored node that lost a field hashes differently)", func(c *Ctx) { ruleCopyComplete(c, 4, "pkg/core/mpt") }},
+			{"record-kind", "every function that decodes a trie node record (from the store, from a proof, from a peer) refuses the child-only kinds - hash node and empty node - before it uses the node: an empty record panics, a hash-node record makes the loaded node point at itself", func(c *Ctx) { ruleRecordKind(c, "pkg/core/mpt") }},
 			{"proof-key", "VerifyProof walks from NewHashNode(root) over a store of its own in strict mode, and stores every proof element under the double-SHA256 of that very element", ruleProofKey},
 			{"node-switch", "type switches dispatching over trie node kinds cover all five kinds or fail in their default arm", ruleNodeSwitch},
 			{"append-alias", "no append(node.field, ...) in package mpt whose result leaves the field (it would write into the spare capacity a node key shares with the path/batch array it was sliced from)", ruleAppendAlias},
@@ -380,6 +382,7 @@ func init() {
 			{"hash-canonical", "every cached identity (hash/size of transaction, header, extensible, notary request) is computed from the node's own encoding, or from received bytes only if the length decoder rejects non-minimal encodings", ruleHashCanonical},
 			{"copy-complete", "a Copy method of a wire type (transaction parts, P2P payloads) that builds its result field by field names every field of the struct, or the field is tabled as a lazily recomputed cache: a copy that is encoded must give the bytes of the original", func(c *Ctx) { ruleCopyComplete(c, 12, "pkg/core/transaction", "pkg/network/payload") }},
 			{"codec-fields", "for every struct type with both halves of a codec family (binary, JSON, stack item) the fields the encoder reads and the fields the decoder restores are the same set, except for tabled asymmetries (cached identities, context carried by the enclosing message): a field written out and never restored is lost by a round trip", ruleCodecFields},
+			{"record-kind", "every function that decodes a trie node record (from the store, from a proof, from a peer) refuses the child-only kinds - hash node and empty node - before it uses the node: an empty record panics, a hash-node record makes the loaded node point at itself", func(c *Ctx) { ruleRecordKind(c, "pkg/core/mpt", "pkg/core/statesync") }},
 			{"codec-symmetry", "for every type with EncodeBinary and DecodeBinary the sequences of wire primitives on the writer/reader agree token by token when both are straight-line; otherwise the sets of primitive kinds agree", ruleCodecSymmetry},
 			{"codec-guards", "where the encoder and the decoder of one type both guard wire operations by comparing the same field with constants, the two sets of constants agree", ruleCodecGuards},
 			{"decode-context", "a decoder of a type whose wire shape depends on a context field (read, never assigned by its DecodeBinary: the consensus state-root flag) hands the context on to every nested value of a context-dependent type it creates", ruleDecodeContext},
